@@ -282,10 +282,20 @@ package journal
 //@   ensures @none: !query.Where(keyOf(t, b, query.Valuation)) ==> tlen() == old(tlen())
 //
 // Sort: the transactions of a day are sorted in place (a permutation of the same slice).
+// @allkinds (C06 mechanism: "every order that reaches the output must come from a total order, not from
+// map or arrival order"): journal.Print and the transcoder write ALL five lists of a day in list order, and
+// Builder.Add appends in arrival order - so every list with more than one element has to be handed to a
+// sort before it is printed. Only the transactions are: see the known finding.
 //@ func Sort$1
 //@   requires d != nil
 //@   modifies d.Transactions[*]
+//@   callback Sort=0
 //@   ensures result == nil && d.Transactions == old(d.Transactions)
+//@   ensures [C06] [C05] @transactions: len(d.Transactions) >= 2 ==> (exists i int :: old(tlen()) <= i && i < tlen() && targ("Sort", 0, i) == d.Transactions)
+//@   ensures [C06] [C05] @allkinds: (len(d.Prices) >= 2 ==> (exists i int :: old(tlen()) <= i && i < tlen() && targ("Sort", 0, i) == d.Prices))
+//@        && (len(d.Openings) >= 2 ==> (exists i int :: old(tlen()) <= i && i < tlen() && targ("Sort", 0, i) == d.Openings))
+//@        && (len(d.Assertions) >= 2 ==> (exists i int :: old(tlen()) <= i && i < tlen() && targ("Sort", 0, i) == d.Assertions))
+//@        && (len(d.Closings) >= 2 ==> (exists i int :: old(tlen()) <= i && i < tlen() && targ("Sort", 0, i) == d.Closings))
 //
 // ---- Builder: directives are grouped by day and kind, independent of arrival order ----------------
 //
